@@ -217,7 +217,19 @@ func c09LessTable(c *Ctx, p *Prog, lessFn *ssa.Function, idxF *types.Var, R stri
 			case s.Op == "binop" && s.Tok == token.LSS && s.Args[0].Op == "call":
 				cmpNeg = &vv
 			default:
-				c.Undecided(R, "comparison:atoms", site, "condition outside the table: "+k)
+				// a condition outside the table: if a path that consults it decides the comparison, the order is
+				// decided by something other than the field comparator's sign and the byte-order fallback
+				decides := false
+				for _, o2 := range outs {
+					if _, has := o2.Assign[k]; has && o2.Term == "return" {
+						decides = true
+					}
+				}
+				if decides {
+					c.Bad(R, "comparison:extra-decision", site, "the comparison of two keys can be decided on a path that depends on "+truncate(k, 140)+", bypassing the field comparator and the byte-order fallback: for first-observation fields two distinct values can then compare as equal both ways (a value never recorded has rank 0, like the first recorded one), so the order is not total and the sorted result depends on the input arrangement")
+				} else {
+					c.Undecided(R, "comparison:atoms", site, "condition outside the table: "+k)
+				}
 				return
 			}
 		}
@@ -592,8 +604,11 @@ func c09Comparators(c *Ctx, p *Prog) {
 			if (v["lt"] && v["gt"]) || ((v["na"] || v["nb"]) && (v["lt"] || v["gt"])) {
 				cons = false
 			}
-			if !(v["pa"] && v["pb"]) && (v["lt"] || v["gt"] || v["na"] || v["nb"]) {
-				cons = false // canonical representative when not both parse
+			if !(v["pa"] && v["pb"]) && (v["lt"] || v["gt"]) {
+				cons = false // the numeric comparison only exists when both parse
+			}
+			if (v["na"] && !v["pa"]) || (v["nb"] && !v["pb"]) {
+				cons = false // only a value that parsed can be NaN
 			}
 			if !cons {
 				continue
